@@ -456,6 +456,67 @@ partial def hasRings : Geom UInt64 → Bool
   | .collection gs => gs.any hasRings
   | _ => false
 
+/-! ### nil-INTERFACE members of collections (local reader)
+
+  `orb.Collection{nil, ring}` travels as `C 2 nil R …` (harness/proto.go writes and reads the token `nil`
+  for a nil member), which the shared parser `Orb.Proto.geom` cannot express (`Geom` has no nil
+  constructor).  The reader below accepts `nil` as a member of a collection at any nesting depth and
+  DROPS it before the value reaches the model.  The model-level statement is therefore
+  "a nil member contributes nothing":  `Area(C{…, nil, …}) = Area(C{… …})`, the same for the three
+  lengths, bit for bit.  That is what the unchanged Go code does:
+   * geo/area.go:13 `if g == nil { return 0 }`, and `collectionArea` (area.go:105) recurses through
+     the guarded entry point `Area(g)`, adding `0`;
+   * internal/length/length.go:12 `if g == nil { return 0 }`, and the `orb.Collection` case
+     (length.go:41) recurses through the guarded `Length(c, df)` — this is the one function behind
+     geo.Length / geo.LengthHaversine / geo.LengthHaversign (and planar.Length);
+  and adding `+0.0` never changes the bits of the running sum (the partial sums are `+0`, positive or
+  NaN: every summand is an absolute value, a sum of distances, or outer − holes of absolute values,
+  which is never `-0`).  The harness's per-ring / per-segment listings (`forEachRing`,
+  `forEachLine`) skip nil members as well, so the composition clauses see the same traversal.
+  A panic on such an input is `propfail panic`. -/
+
+/-- a wire value in which nil-interface members of collections are still visible -/
+inductive NG where
+  | nil
+  | leaf (g : Geom UInt64)
+  | coll (ms : List NG)
+deriving Inhabited
+
+partial def ngeom : P NG := fun ts =>
+  match ts with
+  | "nil" :: ts => some (.nil, ts)
+  | "C" :: ts => do
+    let (n, ts) ← nat ts
+    let rec go : Nat → Toks → Option (List NG × Toks)
+      | 0, ts => some ([], ts)
+      | n+1, ts => do
+        let (g, ts) ← ngeom ts
+        let (gs, ts) ← go n ts
+        pure (g :: gs, ts)
+    let (gs, ts) ← go n ts
+    pure (.coll gs, ts)
+  | ts => (geom ts).map fun (g, ts) => (.leaf g, ts)
+
+/-- the value handed to the model: nil members dropped (`none` = the value itself is nil) -/
+partial def NG.drop : NG → Option (Geom UInt64)
+  | .nil => none
+  | .leaf g => some g
+  | .coll ms => some (.collection (ms.filterMap NG.drop))
+
+partial def NG.hasNil : NG → Bool
+  | .nil => true
+  | .leaf _ => false
+  | .coll ms => ms.any NG.hasNil
+
+/-- `gval` that also accepts collections with nil-interface members; the flag says one was dropped -/
+def gvalN : P (GVal UInt64 × Bool) := fun ts =>
+  match ts with
+  | "C" :: _ =>
+    match ngeom ts with
+    | some (n, rest) => (n.drop).map fun g => ((.val g, n.hasNil), rest)
+    | none => none
+  | _ => (gval ts).map fun (v, ts) => ((v, false), ts)
+
 def kindTag : Geom UInt64 → String
   | .point _ => "point" | .multiPoint _ => "multipoint" | .lineString _ => "linestring"
   | .multiLineString _ => "multilinestring" | .ring _ => "ring" | .polygon _ => "polygon"
@@ -464,13 +525,15 @@ def kindTag : Geom UInt64 → String
 /-- `area <gval> => Area k sa_1 … sa_k T…` -/
 def handleArea (inp out : Toks) : String :=
   match (do
-    let (g, _) ← gval inp
+    let ((g, nm), _) ← gvalN inp
     let (a, o) ← bits out
     let (as, o) ← counted bits o
     let (t, _) ← tableP o
-    pure (g, a, as, t)) with
+    pure (g, nm, a, as, t)) with
   | none => if out == ["panic"] then "propfail panic" else "bad area"
-  | some (g, a, as, t) =>
+  | some (g, nm, a, as, t) =>
+    -- `nm`: a nil-interface member of a collection was dropped (it contributes nothing)
+    let nmTag := if nm then " nil-member" else ""
     let F := mkFn t
     let agree := cmpAll [areaV F (toOV g)] [a]
     fin agree <|
@@ -480,7 +543,7 @@ def handleArea (inp out : Toks) : String :=
       let (spec, rest) := areaFrom g (as.map fl)
       if !rest.isEmpty then "bad ring-count" else
       if !(sameF spec a) then "propfail area-composition" else
-      if hasRings g then s!"ok area {kindTag g}" else s!"ok triv-no-rings {kindTag g}"
+      if hasRings g then s!"ok area {kindTag g}{nmTag}" else s!"ok triv-no-rings {kindTag g}{nmTag}"
 
 /-- Recompute the length from the implementation's own per-segment distances. -/
 partial def lengthFrom (g : Geom UInt64) (ds : List Float) : Float × List Float :=
@@ -502,7 +565,7 @@ partial def lengthFrom (g : Geom UInt64) (ds : List Float) : Float × List Float
     (`LengthHaversign` is the deprecated misspelt entry point; it must return what `LengthHaversine` does) -/
 def handleLen (inp out : Toks) : String :=
   match (do
-    let (g, _) ← gval inp
+    let ((g, nm), _) ← gvalN inp
     let (l, o) ← bits out
     let (lh, o) ← bits o
     let (lhs, o) ← bits o
@@ -511,9 +574,10 @@ def handleLen (inp out : Toks) : String :=
       let (b, ts) ← bits ts
       pure ((a, b), ts)) o
     let (t, _) ← tableP o
-    pure (g, l, lh, lhs, segs, t)) with
+    pure (g, nm, l, lh, lhs, segs, t)) with
   | none => if out == ["panic"] then "propfail panic" else "bad len"
-  | some (g, l, lh, lhs, segs, t) =>
+  | some (g, nm, l, lh, lhs, segs, t) =>
+    let nmTag := if nm then " nil-member" else ""
     let F := mkFn t
     let (ml, mlh) : OF × OF := match toOV g with
       | .val g => (geoLength F g, geoLengthHaversine F g)
@@ -529,7 +593,7 @@ def handleLen (inp out : Toks) : String :=
       if !r1.isEmpty || !r2.isEmpty then "bad segment-count" else
       if !(sameF s1 l) then "propfail length-sum" else
       if !(sameF s2 lh) then "propfail length-haversine-sum" else
-      if segs.isEmpty then s!"ok triv-no-segments {kindTag g}" else s!"ok len {kindTag g}"
+      if segs.isEmpty then s!"ok triv-no-segments {kindTag g}{nmTag}" else s!"ok len {kindTag g}{nmTag}"
 
 /-- Which way `PointAtDistanceAlongLine` leaves its loop on this input (for the evidence tags):
     `at-zero` (distance 0), `at-vertex` (the distance equals a running prefix sum exactly, the
